@@ -11,9 +11,12 @@
 package c07
 
 import (
+	"context"
 	"encoding/xml"
 	"fmt"
 	"strings"
+	"sync"
+	"time"
 
 	"mellium.im/xmlstream"
 	"mellium.im/xmpp"
@@ -315,6 +318,267 @@ func (c *ctx) check(ns, mode string, element string, prog c08.Prog, class string
 	}
 }
 
+// session runs several elements in ONE session (handler direct), each invocation with its own
+// program, and judges every request separately: the replies to its id on the wire are the
+// replies its own handler wrote or, if none, exactly one automatic error, plus whatever other
+// invocations wrote with that id (replies interleaved by the handlers themselves).
+func (c *ctx) session(ns string, elements []string, progs []c08.Prog, class string) {
+	r := c.r
+	local, remote := c08.LocalJID, c08.RemoteJID
+	if ns == c08.NSServer {
+		local, remote = c08.LocalSrv, c08.RemoteSrv
+	}
+	body := []byte(strings.Join(elements, "") + "</stream:stream>")
+	toks := c08.Tokens(ns, body)
+	res := c08.Serve(ns, local, remote, body, progs, nil)
+	line := c08.CaseLine(ns, res.LocalBare, toks, progs)
+	lines := []string{r.Prop + " " + line, "#session " + common.HexS(strings.Join(elements, "\x00"))}
+	if res.Stall || res.Panic != "" {
+		r.Line(line, "PANIC-OR-STALL")
+		r.Fail("no-panic", "panic", lines, res.Panic)
+		return
+	}
+	els, _, _ := c08.Written(ns, res.Out)
+	wobs, _ := c08.WrittenObs(els)
+	cls := c08.ErrClass(res.Err)
+	r.Line(line, wobs+" "+cls)
+	r.Case(line, true, fmt.Sprintf("%s/session/%d/%s", class, len(elements), cls))
+	if cls != "clean" {
+		return
+	}
+	// the requests of the session, in order (top-level start tags of the input)
+	type rq struct {
+		k             int
+		id, typ, from string
+		space         string
+	}
+	var reqs []rq
+	depth, k := 0, 0
+	for _, t := range toks {
+		switch tt := t.(type) {
+		case xml.StartElement:
+			if depth == 0 {
+				if tt.Name.Local == "iq" && (tt.Name.Space == c08.NSClient || tt.Name.Space == c08.NSServer) {
+					q := rq{k: k, id: c08AttrVal(tt.Attr, "id"), typ: c08AttrVal(tt.Attr, "type"), from: c08AttrVal(tt.Attr, "from"), space: tt.Name.Space}
+					if (q.typ == "get" || q.typ == "set") && q.id != "" {
+						reqs = append(reqs, q)
+					}
+				}
+				k++
+			}
+			depth++
+		case xml.EndElement:
+			depth--
+		}
+	}
+	var outEls []c08.Elem
+	for _, e := range els {
+		if !e.StreamError {
+			outEls = append(outEls, e)
+		}
+	}
+	wrote := func(j int, id string) int {
+		if j >= len(progs) {
+			return 0
+		}
+		var w []xml.Token
+		for _, o := range progs[j].Ops {
+			w = append(w, o.Write...)
+		}
+		n := 0
+		for _, e := range splitTop(w) {
+			if isReply(e, id, ns) {
+				n++
+			}
+		}
+		return n
+	}
+	total := 0
+	for j := 0; j < k; j++ {
+		if j < len(progs) {
+			var w []xml.Token
+			for _, o := range progs[j].Ops {
+				w = append(w, o.Write...)
+			}
+			total += len(splitTop(w))
+		}
+	}
+	added := len(outEls) - total
+	wantAdded := 0
+	seen := map[string]bool{}
+	for _, q := range reqs {
+		own := wrote(q.k, q.id)
+		others := 0
+		for j := 0; j < k; j++ {
+			if j != q.k {
+				others += wrote(j, q.id)
+			}
+		}
+		want := own + others
+		if own == 0 {
+			want++
+			wantAdded++
+		}
+		if seen[q.id] {
+			continue // two requests with the same id: judged together below through `added`
+		}
+		dup := 0
+		for _, q2 := range reqs {
+			if q2.id == q.id {
+				dup++
+			}
+		}
+		if dup > 1 {
+			seen[q.id] = true
+			continue
+		}
+		got := 0
+		for _, e := range outEls {
+			if isReply(e.Toks, q.id, ns) {
+				got++
+			}
+		}
+		if got != want {
+			key := "session-missing"
+			if got > want {
+				key = "session-double"
+			}
+			r.Fail("answered-once", key, lines, fmt.Sprintf("request %d (id %q): %d replies on the wire, want %d (own handler %d, other handlers %d)", q.k, q.id, got, want, own, others))
+		}
+	}
+	if added != wantAdded {
+		r.Fail("no-auto-reply", "session-added", lines, fmt.Sprintf("the session added %d elements, want %d (one per unanswered request)", added, wantAdded))
+	}
+}
+
+// pend is a local request that is waiting for its response while the peer's input is served.
+type pend struct {
+	id   string
+	name xml.Name // name of the request's start element as given to SendIQ
+}
+
+// pending runs a session with local SendIQ requests outstanding (each in its own goroutine,
+// parked in SendIQ until a response is delivered or the run is over) and then serves the
+// peer's elements.  The model keeps the table of pending requests as part of the serve state.
+func (c *ctx) pending(ns string, pends []pend, elements []string, progs []c08.Prog, class string) {
+	r := c.r
+	local, remote := c08.LocalJID, c08.RemoteJID
+	if ns == c08.NSServer {
+		local, remote = c08.LocalSrv, c08.RemoteSrv
+	}
+	body := []byte(strings.Join(elements, "") + "</stream:stream>")
+	toks := c08.Tokens(ns, body)
+	var mu sync.Mutex
+	var delivered []string
+	var wg sync.WaitGroup
+	before := func(s *xmpp.Session, out *common.SafeBuffer) func() {
+		ctx, cancel := context.WithCancel(context.Background())
+		for _, p := range pends {
+			p := p
+			wg.Add(1)
+			want := out.Len()
+			go func() {
+				defer wg.Done()
+				st := xml.StartElement{Name: p.name, Attr: []xml.Attr{at("type", "get"), at("id", p.id), at("to", "peer@example.net")}}
+				resp, err := s.SendIQ(ctx, xmlstream.Wrap(xmlstream.Wrap(nil, xml.StartElement{Name: xml.Name{Space: "urn:q", Local: "q"}}), st))
+				if err != nil || resp == nil {
+					return
+				}
+				for {
+					tok, err := resp.Token()
+					if err != nil || tok == nil {
+						break
+					}
+				}
+				mu.Lock()
+				delivered = append(delivered, p.id)
+				mu.Unlock()
+				resp.Close()
+			}()
+			// wait until the request is on the wire: its table entry exists from then on
+			for i := 0; i < 5000 && out.Len() == want; i++ {
+				time.Sleep(200 * time.Microsecond)
+			}
+		}
+		return func() { cancel(); wg.Wait() }
+	}
+	res := c08.ServeHook(ns, local, remote, body, progs, nil, before)
+	var pf []string
+	for _, p := range pends {
+		pf = append(pf, fmt.Sprintf("%x=%x=%x", p.id, p.name.Space, p.name.Local))
+	}
+	line := strings.Join([]string{"servep", c08.NsField(ns), common.HexS(res.LocalBare), c08.JidMap(toks), common.Join(pf, ","), common.EncToks(toks), c08.EncProgs(progs)}, " ")
+	lines := []string{r.Prop + " " + line, "#pending " + common.HexS(strings.Join(elements, "\x00"))}
+	if res.Stall || res.Panic != "" {
+		r.Line(line, "PANIC-OR-STALL")
+		r.Fail("no-panic", "pending-stall", lines, res.Panic)
+		return
+	}
+	els, _, _ := c08.Written(ns, res.Out)
+	wobs, _ := c08.WrittenObs(els)
+	cls := c08.ErrClass(res.Err)
+	mu.Lock()
+	var dl []string
+	for _, d := range delivered {
+		dl = append(dl, fmt.Sprintf("%x", d))
+	}
+	mu.Unlock()
+	r.Line(line, wobs+" "+cls+" "+common.Join(dl, ","))
+	r.Case(line, true, fmt.Sprintf("%s/pending-%d/%d/%s", class, len(pends), len(elements), cls))
+	if cls != "clean" {
+		return
+	}
+	// every get/set with an id is answered exactly once whatever is pending (the handlers of
+	// this runner write nothing, so: exactly one automatic error per request)
+	var outEls []c08.Elem
+	for _, e := range els {
+		if !e.StreamError {
+			outEls = append(outEls, e)
+		}
+	}
+	depth := 0
+	nreq := 0
+	for _, t := range toks {
+		switch tt := t.(type) {
+		case xml.StartElement:
+			if depth == 0 && tt.Name.Local == "iq" && (tt.Name.Space == c08.NSClient || tt.Name.Space == c08.NSServer) {
+				typ, id := c08AttrVal(tt.Attr, "type"), c08AttrVal(tt.Attr, "id")
+				if (typ == "get" || typ == "set") && id != "" {
+					nreq++
+					got := 0
+					for _, e := range outEls {
+						if isReply(e.Toks, id, ns) {
+							got++
+						}
+					}
+					same := 0
+					for _, t2 := range toks {
+						if s2, ok := t2.(xml.StartElement); ok && s2.Name.Local == "iq" && c08AttrVal(s2.Attr, "id") == id {
+							ty := c08AttrVal(s2.Attr, "type")
+							if ty == "get" || ty == "set" {
+								same++
+							}
+						}
+					}
+					if got != same {
+						key := "pending-missing"
+						if got > same {
+							key = "pending-double"
+						}
+						r.Fail("answered-once", key, lines, fmt.Sprintf("request id %q: %d replies on the wire, want %d, with %d local requests pending", id, got, same, len(pends)))
+					}
+				}
+			}
+			depth++
+		case xml.EndElement:
+			depth--
+		}
+	}
+	if len(outEls) != nreq {
+		r.Fail("no-auto-reply", "pending-added", lines, fmt.Sprintf("%d elements written, want %d (one per request, nothing for replies)", len(outEls), nreq))
+	}
+}
+
 var payloads = []string{
 	`<q xmlns="urn:q"/>`,
 	``,
@@ -369,6 +633,62 @@ func Run(r *common.Run) error {
 		}
 		for i, l := range lines {
 			f := strings.Fields(l)
+			if len(f) == 2 && f[0] == "#pending" && i > 0 {
+				sb, err := common.UnHex(f[1])
+				if err != nil {
+					return err
+				}
+				g := strings.Fields(lines[i-1])
+				if len(g) < 8 {
+					continue
+				}
+				ns := c08.NSClient
+				if g[2] == "s" {
+					ns = c08.NSServer
+				}
+				var ps []pend
+				if g[5] != "-" {
+					for _, x := range strings.Split(g[5], ",") {
+						p := strings.Split(x, "=")
+						if len(p) != 3 {
+							continue
+						}
+						a, _ := common.UnHex(p[0])
+						b, _ := common.UnHex(p[1])
+						d, _ := common.UnHex(p[2])
+						if p[1] == "" {
+							b = nil
+						}
+						ps = append(ps, pend{string(a), xml.Name{Space: string(b), Local: string(d)}})
+					}
+				}
+				progs, err := c08.DecProgs(g[7])
+				if err != nil {
+					return err
+				}
+				c.pending(ns, ps, strings.Split(string(sb), "\x00"), progs, "replay")
+				continue
+			}
+			if len(f) == 2 && f[0] == "#session" && i > 0 {
+				sb, err := common.UnHex(f[1])
+				if err != nil {
+					return err
+				}
+				g := strings.Fields(lines[i-1])
+				if len(g) < 7 {
+					continue
+				}
+				ns := c08.NSClient
+				if g[2] == "s" {
+					ns = c08.NSServer
+				}
+				ps, err := c08.DecProgs(g[6])
+				if err != nil {
+					return err
+				}
+				c.session(ns, strings.Split(string(sb), "\x00"), ps, "replay")
+				continue
+			}
 			if len(f) < 2 || f[0] != "#elem" || i == 0 {
 				continue
 			}
@@ -406,10 +726,19 @@ func Run(r *common.Run) error {
 			c.check(ns, m, `<iq type="get" id="D" from="a@example.org/r"><q xmlns="urn:q"><!--c--></q></iq>`, progOf(nil, "D", 9, "ok"), "corpus")
 		}
 		c.check(ns, "d", `<iq type="get" id="f1"><q xmlns="urn:q"/></iq>`, progOf(nil, "f1", 0, "eof"), "corpus")
+		// attributes qualified with the stanza's own namespace are not the stanza's attributes
+		for _, m := range modes {
+			c.check(ns, m, `<iq xmlns:c="`+ns+`" type="get" id="o1" c:id="o1x" from="a@example.org/r"><q xmlns="urn:q"/></iq>`, progOf(nil, "o1", 0, "ok"), "corpus")
+			c.check(ns, m, `<iq xmlns:c="`+ns+`" c:type="result" type="set" id="o2" c:from="zz@example.org" from="a@example.org/r" c:to="yy@example.org"><q xmlns="urn:q"/></iq>`, progOf(nil, "o2", 1, "ok"), "corpus")
+			c.check(ns, m, `<iq xmlns:c="`+ns+`" c:type="get" type="result" id="o3" c:id="o3x"><q xmlns="urn:q"/></iq>`, progOf(nil, "o3", 0, "ok"), "corpus")
+		}
 	}
 
 	// exhaustive: incoming element shapes x single writes / pairs of writes x modes
-	locals := []struct{ local, ns string }{{"iq", ""}, {"message", ""}, {"presence", ""}, {"iq", "urn:other"}, {"x", "urn:x"}}
+	// {"iq", ""} is an iq in the stream's own namespace; the next two are iqs explicitly
+	// qualified with jabber:client / jabber:server, one of which is the OTHER stanza
+	// namespace than the stream's
+	locals := []struct{ local, ns string }{{"iq", ""}, {"iq", c08.NSClient}, {"iq", c08.NSServer}, {"message", ""}, {"presence", ""}, {"iq", "urn:other"}, {"x", "urn:x"}}
 	types := []string{"get", "set", "result", "error", "-", "foo"}
 	froms := []string{"-", "a@example.org/r", "OWN"}
 	nsList := []string{c08.NSClient}
@@ -459,7 +788,97 @@ func Run(r *common.Run) error {
 			}
 		}
 	}
-	r.Exhaustive = append(r.Exhaustive, fmt.Sprintf("incoming element (5 names x 6 types x 3 from values x %d payload shapes) x every single handler write out of %d x 3 modes; every ordered pair of writes for get/set requests", len(payloads), len(writeNames)))
+	// handlers that return an error value after writing 0 / 1 / 2 replies: plain error,
+	// io.EOF, stanza.Error, stream.Error; direct and behind the mux (registered), for every
+	// IQ type
+	for _, ns := range []string{c08.NSClient, c08.NSServer} {
+		for _, typ := range []string{"get", "set", "result", "error"} {
+			e := element("iq", "", "er", typ, "a@example.org/r", "-", "", payloads[0])
+			for _, ret := range []string{"ok", "fail", "eof", "stanzaerr", "streamerr"} {
+				for _, ws := range [][]string{nil, {"result"}, {"error"}, {"result", "result"}, {"otherid"}, {"message", "result"}} {
+					for _, m := range []string{"d", "r"} {
+						c.check(ns, m, e, progOf(ws, "er", len(ws)%3, ret), "exhaustive-returns")
+					}
+				}
+				c.check(ns, "u", e, progOf(nil, "er", 0, ret), "exhaustive-returns")
+			}
+		}
+	}
+	r.Exhaustive = append(r.Exhaustive, fmt.Sprintf("incoming element (7 names incl. both stanza namespaces x 6 types x 3 from values x %d payload shapes) x every single handler write out of %d x 3 modes; every ordered pair of writes for get/set requests", len(payloads), len(writeNames)))
+
+	// several elements in one session: requests with distinct (and sometimes equal) ids,
+	// replies, other stanzas; handlers that answer their own request, an earlier or a later one
+	rndS := r.Rnd.Fork()
+	ns2 := r.Pick(1500, 15000)
+	for i := 0; i < ns2; i++ {
+		ns := c08.NSClient
+		if rndS.Chance(1, 4) {
+			ns = c08.NSServer
+		}
+		cnt := 2 + rndS.Intn(4)
+		var elements []string
+		var progs []c08.Prog
+		ids := make([]string, cnt)
+		for k := range ids {
+			ids[k] = fmt.Sprintf("s%d", k)
+			if rndS.Chance(1, 10) && k > 0 {
+				ids[k] = ids[k-1]
+			}
+		}
+		for k := 0; k < cnt; k++ {
+			l := locals[0]
+			if rndS.Chance(1, 4) {
+				l = locals[1+rndS.Intn(len(locals)-1)]
+			}
+			typ := types[rndS.Intn(2)]
+			if rndS.Chance(1, 4) {
+				typ = types[rndS.Intn(len(types))]
+			}
+			from := []string{"-", "a@example.org/r", "b@example.org"}[rndS.Intn(3)]
+			elements = append(elements, element(l.local, l.ns, ids[k], typ, from, "-", "", payloads[rndS.Intn(len(payloads))]))
+			if rndS.Chance(1, 5) {
+				elements = append(elements, []string{" ", "\n"}[rndS.Intn(2)])
+			}
+			var p c08.Prog
+			p.Ret = "ok"
+			for q := rndS.Intn(4); q > 0; q-- {
+				p.Ops = append(p.Ops, c08.Op{Read: true})
+			}
+			for q := rndS.Intn(3); q > 0; q-- {
+				target := ids[k]
+				if rndS.Chance(1, 3) {
+					target = ids[rndS.Intn(cnt)]
+				}
+				p.Ops = append(p.Ops, c08.Op{Write: writes(target)[writeNames[rndS.Intn(len(writeNames))]]})
+			}
+			progs = append(progs, p)
+		}
+		c.session(ns, elements, progs, "session")
+	}
+
+	// pending local requests: 0..2 SendIQ calls outstanding x incoming IQs of every type with
+	// an id equal to / different from the pending ones
+	pendSets := [][]pend{nil, {{"p1", name("iq")}}, {{"p1", name("iq")}, {"p2", xml.Name{Space: c08.NSClient, Local: "iq"}}}}
+	for _, ns := range []string{c08.NSClient, c08.NSServer} {
+		for _, ps := range pendSets {
+			for _, typ := range []string{"get", "set", "result", "error", "-"} {
+				for _, id := range []string{"p1", "p2", "zz"} {
+					for _, l := range []struct{ local, ns string }{{"iq", ""}, {"iq", c08.NSClient}, {"iq", c08.NSServer}, {"message", ""}} {
+						e := element(l.local, l.ns, id, typ, "a@example.org/r", "-", "", payloads[0])
+						c.pending(ns, ps, []string{e}, nil, "exhaustive-pending")
+					}
+				}
+			}
+			// sequences: a request and a response with the same id in both orders, then again
+			for _, seq := range [][]string{
+				{element("iq", "", "p1", "get", "-", "-", "", payloads[0]), element("iq", "", "p1", "result", "-", "-", "", ""), element("iq", "", "p1", "set", "-", "-", "", payloads[0])},
+				{element("iq", "", "p1", "result", "-", "-", "", payloads[3]), element("iq", "", "p1", "result", "-", "-", "", ""), element("iq", "", "p1", "get", "-", "-", "", payloads[0])},
+				{element("iq", "", "p2", "error", "-", "-", "", ""), element("iq", "", "p2", "get", "-", "-", "", payloads[0]), element("iq", "", "p1", "result", "-", "-", "", "")},
+			} {
+				c.pending(ns, ps, seq, []c08.Prog{progOf(nil, "x", 1, "ok"), progOf(nil, "x", 0, "ok")}, "exhaustive-pending")
+			}
+		}
+	}
 
 	// random
 	rnd := r.Rnd
@@ -495,7 +914,7 @@ func Run(r *common.Run) error {
 		}
 		ret := "ok"
 		if rnd.Chance(1, 12) {
-			ret = []string{"fail", "eof"}[rnd.Intn(2)]
+			ret = []string{"fail", "eof", "stanzaerr", "streamerr"}[rnd.Intn(4)]
 		}
 		wid := id
 		if wid == "-" {
